@@ -1,10 +1,28 @@
 import Pyxv.Model.Json
 import Pyxv.Model.Spell
+import Pyxv.Model.SpellRow
 /-! Driver operations for the spelling/layout normalisations (property C13). -/
 namespace Pyxv.Spell
 open Lean Pyxv
 
 def strsToJson (l : List Str) : Json := Json.arr (l.map jstr).toArray
+
+mutual
+partial def valToJson : Val → Json
+  | .str s => jstr s
+  | .dict d => Json.mkObj [("d", Json.arr (kvsToJson d).toArray)]
+partial def kvsToJson : KVs → List Json
+  | .nil => []
+  | .cons k v rest => Json.arr #[jstr k, valToJson v] :: kvsToJson rest
+end
+
+def cellOfJson (j : Json) : Except String (List Str × Str) := do
+  let a ← j.getArr?
+  if h : a.size = 2 then
+    let toks ← strList a[0]
+    let v ← a[1].getStr?
+    pure (toks, v.toList)
+  else throw "cell expected"
 
 def opsSpell (op : String) (j : Json) : Option (Except String Json) :=
   match op with
@@ -44,6 +62,10 @@ def opsSpell (op : String) (j : Json) : Option (Except String Json) :=
       let row ← pairList (← j.getObjVal? "row")
       let hk ← pairList (← j.getObjVal? "key")
       pure (pairsToJson (processRowFlat (fun h => (lookup h hk).getD h) row))
+  | "spell.row" => some do
+      let dl ← getStr j "dl"
+      let cells ← (← getArr j "cells").toList.mapM cellOfJson
+      pure (Json.arr (kvsToJson (processRow dl cells)).toArray)
   | _ => none
 
 end Pyxv.Spell
